@@ -24,6 +24,15 @@ Section FrameSpec.
   Definition chunks_of (ws : list bytes) : list bytes := concat (map chunks ws).
   Definition frames_of (ws : list bytes) : list bytes := map (mk_frame pad) (chunks_of ws).
 
+  (** ... and by a sequence of Write calls some of whose underlying conn.Write fail: a Write
+      whose conn.Write fails at its frame [j] ([Some j]) has sealed its first j+1 chunks *)
+  Definition sealed_chunks (w : bytes * option nat) : list bytes :=
+    match snd w with None => chunks (fst w) | Some j => firstn (S j) (chunks (fst w)) end.
+  Definition chunks_of_f (ws : list (bytes * option nat)) : list bytes :=
+    concat (map sealed_chunks ws).
+  Definition frames_of_f (ws : list (bytes * option nat)) : list bytes :=
+    map (mk_frame pad) (chunks_of_f ws).
+
   (** sealing a list of frames with consecutive counters starting at [c] *)
   Fixpoint seal_seq (k : key) (c : N) (frames : list bytes) : list bytes :=
     match frames with
